@@ -94,31 +94,37 @@ def run(case):
       # a rejected registration whose function is dropped, then - at once - a
       # new function whose REQUIRED default must be seen
       import gc
-      g1 = {}
-      exec('def %s_g(x=1, y=2):\n  return x\n' % r['name'], g1)  # pylint: disable=exec-used
-      try:
-        gin.external_configurable(g1.pop('%s_g' % r['name']),
-                                  name=r['name'] + '_g', allowlist=['nope'])
-      except Exception:  # pylint: disable=broad-except
-        pass
-      g1.clear()
-      gc.collect()
       ran = []
-      g2 = {'REQ': gin.REQUIRED, 'ran': ran}
-      exec('def %s_n(a=REQ, b=2):\n  ran.append(a)\n  return a\n' % r['name'],  # pylint: disable=exec-used
-           g2)
       exc = None
-      try:
-        conf = gin.external_configurable(g2['%s_n' % r['name']],
-                                         name=r['name'] + '_n')
-        conf()
-      except Exception as e:  # pylint: disable=broad-except
-        exc = e
+      bad = None
+      for rnd in range(8):   # memory reuse is likely, not certain: a few rounds
+        g1 = {}
+        exec('def g(x=1, y=2):\n  return x\n', g1)  # pylint: disable=exec-used
+        try:
+          gin.external_configurable(g1.pop('g'), name='%s_g%d' % (r['name'], rnd),
+                                    allowlist=['nope'])
+        except Exception:  # pylint: disable=broad-except
+          pass
+        g1.clear()
+        gc.collect()
+        g2 = {'REQ': gin.REQUIRED, 'ran': ran}
+        exec('def n(a=REQ, b=2):\n  ran.append(a)\n  return a\n', g2)  # pylint: disable=exec-used
+        exc = None
+        try:
+          conf = gin.external_configurable(g2['n'],
+                                           name='%s_n%d' % (r['name'], rnd))
+          conf()
+        except Exception as e:  # pylint: disable=broad-except
+          exc = e
+        if ran or not isinstance(exc, RuntimeError):
+          bad = rnd
+          break
       log.add('reg', r['kind'], type(exc).__name__ if exc else None, len(ran))
       if ran:
         v('C10.marker_never_passed', ['after-rejected-registration'],
           'a function registered right after a rejected registration ran with '
-          'the REQUIRED marker for its unbound parameter: %r' % ran)
+          'the REQUIRED marker for its unbound parameter (round %s): %r' %
+          (bad, ran))
       elif not isinstance(exc, RuntimeError):
         v('C10.call_fails', ['after-rejected-registration',
                              type(exc).__name__ if exc else 'no-error'],
